@@ -241,8 +241,9 @@ impl Engine for CliSim {
     }
 
     fn rule(&self, _prop: &str) -> String {
-        "one evaluation = one history of 8-18 real jj commands (new, describe, commit, squash, abandon, rebase, edit, duplicate, bookmark set/delete, \
-         restore, undo, redo, op restore, workspace add / update-stale, --at-op commands, --ignore-working-copy commands) in one repository with up to two \
+        "one evaluation = one history of 8-18 real jj commands (new [--insert-before/--insert-after], describe, commit, squash [--from/--into], abandon, \
+         rebase -r/-s/-b, edit, duplicate, metaedit, parallelize, simplify-parents, split <file>, absorb, file chmod, restore [--from/--into], bookmark set/delete, \
+         tag set, undo, redo, op restore, workspace add / update-stale, --at-op commands, --ignore-working-copy commands) in one repository with up to two \
          workspaces, interleaved with file edits; distinct = distinct command-kind sequence hash; non-trivial = the history contains a command at an \
          older operation, a stale workspace, an undo/redo/op restore, or a command refused for immutability"
             .to_string()
@@ -365,7 +366,7 @@ impl Engine for CliSim {
                 }
             };
             // --- choose the command
-            let k = ch.weighted(&[5, 3, 3, 2, 2, 2, 2, 3, 1, 1, 3, 2, 1, 1, 1, 1]);
+            let k = ch.weighted(&[5, 3, 3, 2, 2, 2, 2, 3, 1, 1, 3, 2, 1, 1, 1, 1, 1, 1, 1, 1, 1, 1, 1, 1, 1, 1, 1, 1, 1]);
             kinds.push(k as u8);
             let mut kind = Kind::Normal;
             let mut judged_immutable = true;
@@ -426,6 +427,23 @@ impl Engine for CliSim {
                     vec![s("workspace"), s("add"), s("../ws2")]
                 }
                 14 => vec![s("restore")],
+                16 => vec![s("rebase"), s("-s"), pick_rev(&mut ch), s("-d"), pick_rev(&mut ch)],
+                17 => vec![s("rebase"), s("-b"), pick_rev(&mut ch), s("-d"), pick_rev(&mut ch)],
+                18 => vec![s("new"), s("--insert-before"), pick_rev(&mut ch), s("-m"), format!("inserted before {step}")],
+                19 => vec![s("new"), s("--insert-after"), pick_rev(&mut ch), s("-m"), format!("inserted after {step}")],
+                20 => vec![s("metaedit"), pick_rev(&mut ch), s(["--update-author-timestamp", "--update-change-id", "--force-rewrite"][ch.choose(3)])],
+                21 => vec![s("parallelize"), format!("{}::{}", pick_rev(&mut ch), pick_rev(&mut ch))],
+                22 => vec![s("simplify-parents"), s("-r"), pick_rev(&mut ch)],
+                23 => vec![s("split"), s("-r"), pick_rev(&mut ch), s(files[ch.choose(files.len())]), s("-m"), format!("split {step}")],
+                24 => vec![s("absorb")],
+                25 => vec![s("file"), s("chmod"), s(["x", "n"][ch.choose(2)]), s(files[ch.choose(files.len())]), s("-r"), pick_rev(&mut ch)],
+                26 => vec![s("squash"), s("-u")],
+                27 => vec![s("restore"), s("--from"), pick_rev(&mut ch), s("--into"), pick_rev(&mut ch)],
+                28 => {
+                    // moves the immutable set itself (tags() is part of immutable_heads())
+                    judged_immutable = false;
+                    vec![s("tag"), s("set"), format!("v{}", ch.choose(2)), s("-r"), pick_rev(&mut ch), s("--allow-move")]
+                }
                 _ => vec![s("duplicate"), pick_rev(&mut ch)],
             };
             if kind == Kind::Normal && ch.chance(1, 10) && !older_ops.is_empty() && !matches!(k, 13) {
